@@ -129,3 +129,11 @@ func VerifWriteRawBlock(fname string, raw []byte, encType []byte, recCount uint1
 }
 
 func VerifCardLimit() uint16 { return wipCardLimit }
+
+// VerifHasBloomAndRange: the column has both a bloom and a range index in the open block, i.e. it is one that
+// consolidateColumnTypes will rewrite at flush.
+func (ss *SegStore) VerifHasBloomAndRange(cname string) bool {
+	_, b := ss.wipBlock.columnBlooms[cname]
+	_, r := ss.wipBlock.columnRangeIndexes[cname]
+	return b && r
+}
